@@ -48,7 +48,30 @@ def start(repo):
         sys.settrace(tracer)
 
 
+def snapshot():
+    return {os.path.relpath(fn, os.path.dirname(_prefix.rstrip(os.sep))): sorted(lines) for fn, lines in _hits.items()}
+
+
 def dump(path):
-    out = {os.path.relpath(fn, os.path.dirname(_prefix.rstrip(os.sep))): sorted(lines) for fn, lines in _hits.items()}
     with open(path, "w") as f:
-        json.dump(out, f)
+        json.dump(snapshot(), f)
+
+
+def executable_lines(path):
+    """line -> qualified function name for the lines of code objects nested in functions (module and class level
+    code runs at import and says nothing about the workload)"""
+    out = {}
+
+    def walk(code, qual, depth):
+        for c in code.co_consts:
+            if hasattr(c, "co_code"):
+                walk(c, (qual + "." if qual else "") + c.co_name, depth + 1)
+        if depth == 0:
+            return
+        for _, _, line in code.co_lines():
+            if line is not None and line != code.co_firstlineno:
+                out.setdefault(line, qual)
+
+    with open(path) as f:
+        walk(compile(f.read(), path, "exec"), "", 0)
+    return out
